@@ -301,7 +301,7 @@ fn one(idx: u64, c: &Case, floor: usize, lowest: usize, attempts: &mut Vec<u64>,
                 // everything else was reserved: where did it get that page from?
                 return (Verdict::Inconclusive, "skip:trampoline-outside-the-holes-we-left".into(), d);
             }
-            let reader = x86::live_reader();
+            let reader = live_reader();
             let w = x86::follow(t.addr, f.addr, &reader);
             let via_tramp = w.path.iter().any(|(a, _)| *a >= tramp && *a < tramp + PAGE);
             d = d.s("path", &format!("{:x?}", w.path));
